@@ -286,14 +286,25 @@ class Runner:
                 except Exception as e:
                     res = 'e:' + type(e).__name__
             elif op == 'tick':
-                q = main._clock_scheduler.queue
+                sched = main._clock_scheduler
+                q = sched.queue
                 if q.empty():
                     res = '-'
                 else:
-                    time, ct = q.pop()              # one iteration of ClockScheduler.run
+                    time, ct = q.peek()
                     self.xlog.append(['tick', self.idx.get(id(ct.task), '?'),
                                       int(time) if time == int(time) else time])
-                    ct._wakeup(time)
+                    # exactly one iteration of the real ClockScheduler.run loop
+                    calls, real_empty = [0], q.empty
+
+                    def empty_once():
+                        calls[0] += 1
+                        return real_empty() if calls[0] == 1 else True
+                    q.empty = empty_once
+                    try:
+                        sched.run()
+                    finally:
+                        del q.empty
                     res = self.last_res
             elif op == 'rop':
                 if self.rop('M', x[1], x[2]):
